@@ -269,4 +269,65 @@ theorem classify_int_head (body : List Char) (r : Nat) (ds : List Nat)
     · rename_i hs; exact hdec _ hs
     · exact absurd hc (classifyReal_not_int _ _ _)
 
+/-! ### a weaker stop condition for decimal numbers (needed for `2i`, `1.0i`: the writers print imaginary
+numbers with the `i` glued to the literal) -/
+
+/-- the next character (if any) neither continues a decimal number (`0-9 _ . e E`) nor turns a leading `0`
+into a radix prefix (`b o x`, either case).  Implied by `delim`. -/
+def numStop (rest : List Char) : Bool :=
+  stops (fun c => isNumChar 10 c || c == '.' || c == 'e' || c == 'E' || lowerAscii c == 'b' ||
+    lowerAscii c == 'o' || lowerAscii c == 'x') rest
+
+theorem numStop_head (rest : List Char) (h : numStop rest = true) :
+    ∀ d r, rest = d :: r → isNumChar 10 d = false ∧ d ≠ '.' ∧ d ≠ 'e' ∧ d ≠ 'E' ∧
+      lowerAscii d ≠ 'b' ∧ lowerAscii d ≠ 'o' ∧ lowerAscii d ≠ 'x' := by
+  intro d r e
+  subst e
+  simpa [numStop, stops, and_assoc] using h
+
+theorem numStop_stops_num10 (rest : List Char) (h : numStop rest = true) :
+    stops (isNumChar 10) rest = true := by
+  cases rest with
+  | nil => rfl
+  | cons d r => simp [stops, (numStop_head _ h d r rfl).1]
+
+theorem delim_numStop (rest : List Char) (h : delim rest = true) : numStop rest = true := by
+  cases rest with
+  | nil => rfl
+  | cons d r =>
+    have ⟨h1, h2⟩ := delim_head _ h d r rfl
+    have hna := not_end_not_alpha d h1
+    have hn : isNumChar 10 d = false := by
+      cases hn : isNumChar 10 d with
+      | false => rfl
+      | true => have := numChar_isEnd 10 (by omega) d hn; simp_all
+    have he : d ≠ 'e' := by intro e; subst e; simp [isAsciiAlpha] at hna
+    have hE : d ≠ 'E' := by intro e; subst e; simp [isAsciiAlpha] at hna
+    have hp : ∀ p, (p = 'b' ∨ p = 'o' ∨ p = 'x') → lowerAscii d ≠ p := fun p hp e => by
+      have := lower_alpha d p hp e
+      simp [hna] at this
+    simp [numStop, stops, hn, h2, he, hE, hp 'b' (by simp), hp 'o' (by simp), hp 'x' (by simp)]
+
+theorem lexRadixInteger_error2 (radix : Nat) (p : Char) (inp : List Char)
+    (h : ∀ a d r, inp = a :: d :: r → lowerAscii d ≠ p) : lexRadixInteger radix p inp = .error := by
+  unfold lexRadixInteger
+  split
+  · rename_i c r
+    simp [h '0' c r rfl]
+  · rfl
+
+theorem lower_ne_of_not_alpha (d p : Char) (hp : p = 'b' ∨ p = 'o' ∨ p = 'x')
+    (h : isAsciiAlpha d = false) : lowerAscii d ≠ p := fun e => by
+  have := lower_alpha d p hp e
+  simp [h] at this
+
+/-- digit run of radix 10 followed by a stopper -/
+theorem numRun_loose10 (s rest : List Char) (hs : Spec.isLooseDigitString 10 s = true)
+    (hstop : stops (isNumChar 10) rest = true) :
+    numRun 10 (s ++ rest) = (s, rest) ∧ s ≠ [] ∧ runDigits s = Spec.digitsOf s := by
+  obtain ⟨hall, hne⟩ := isLoose_all 10 s hs
+  refine ⟨?_, hne, runDigits_eq 10 (by omega) s hall⟩
+  unfold numRun
+  exact span_append _ _ _ (fun d hd => (isNumChar_iff d 10 (by omega)).2 (hall d hd)) hstop
+
 end QV.C05
